@@ -42,6 +42,8 @@ def run(tier):
         behs = chancheck.behaviours(r, 1)
         if limit and tier == "quick" and len(behs) > limit:
             behs = rnd.sample(behs, limit)
+        elif name.startswith("story") and len(behs) > 20000:
+            behs = rnd.sample(behs, 20000)
         per_build = {}
         for b in BUILDS:
             per_build[b] = chancheck.replay(wd, name, b, "thread", [dict(x) for x in behs], sb=4096)
